@@ -940,35 +940,52 @@ Proof. induction a as [|o a IH]; intros s b; [reflexivity|]. cbn [app trace run_
 Lemma run_ops_app f : forall a s b, run_ops f s (a ++ b) = run_ops f (run_ops f s a) b.
 Proof. induction a as [|o a IH]; intros s b; [reflexivity|]. cbn [app run_ops]. apply IH. Qed.
 
-Lemma step_at_step f c0 s o : d_cache_deferred f = false -> step_at f c0 s o = step f s o.
-Proof. intro H. destruct o; try reflexivity. unfold step_at. rewrite H. reflexivity. Qed.
+Lemma step_at_same f s o : step_at f s s o = step f s o.
+Proof. destruct o; try reflexivity. unfold step_at, step, ibtp_outcome. destruct (d_cache_deferred f); reflexivity. Qed.
 
-(** with the cache written right after each transaction a block is nothing but its transactions in a row *)
-Lemma trace_block_flat f c0 : d_cache_deferred f = false ->
-  forall ops s, trace_block f c0 s ops = (trace f s ops, run_ops f s ops).
+(** a history whose blocks hold one transaction each is the plain history, whatever the flags *)
+Lemma trace_blocks_singletons f : forall h s, trace_blocks f s (map (fun o => [o]) h) = trace f s h.
 Proof.
-  intro H. induction ops as [|o t IH]; intro s; [reflexivity|].
-  cbn [trace_block trace run_ops]. rewrite (step_at_step f c0 s o H), IH. reflexivity.
+  induction h as [|o t IH]; intro s; [reflexivity|].
+  cbn [map trace_blocks trace_block trace]. rewrite step_at_same. cbn [app]. rewrite IH. reflexivity.
 Qed.
 
-Lemma trace_blocks_flat f : d_cache_deferred f = false ->
-  forall bs s, trace_blocks f s bs = trace f s (List.concat bs).
+Lemma trace_block_state f s0 : forall ops s, snd (trace_block f s0 s ops) = run_ops f s ops.
 Proof.
-  intro H. induction bs as [|b t IH]; intro s; [reflexivity|].
-  cbn [trace_blocks List.concat]. rewrite (trace_block_flat f (cache s) H b s), trace_app, IH. reflexivity.
+  induction ops as [|o t IH]; intro s; [reflexivity|].
+  cbn [trace_block run_ops]. specialize (IH (r_state (step_at f s0 s o))).
+  destruct (trace_block f s0 (r_state (step_at f s0 s o)) t) as [rs s'] eqn:E. cbn [snd] in *.
+  rewrite IH. destruct o; reflexivity.
+Qed.
+
+(** the state after a history of blocks is the state after its transactions in a row: blocks matter to requests only *)
+Lemma blocks_state f : forall bs s,
+  fold_left (fun s b => snd (trace_block f s s b)) bs s = run_ops f s (List.concat bs).
+Proof.
+  induction bs as [|b t IH]; intro s; [reflexivity|].
+  cbn [fold_left List.concat]. rewrite trace_block_state, IH, run_ops_app. reflexivity.
 Qed.
 
 (** the gate at a position inside a block: after the blocks [bs] and the transactions [pre] of the current block,
-    the request is decided on the records stored at that very position *)
+    the request is decided on the records stored at that very position (the proof stage, which may refuse it
+    before, looks at the state the block started from) *)
 Lemma gate_in_block f bs pre src dst :
   d_cache_failed_events f = false -> d_cache_deferred f = false ->
   let s0 := run_ops f st0 (List.concat bs) in
   let s := run_ops f s0 pre in
-  exists oc, r_out (step_at f (cache s0) s (OIbtp src dst)) = outcome_code oc /\ gate_sound (svcs s) src dst oc = true.
+  exists oc, r_out (step_at f s0 s (OIbtp src dst)) = outcome_code oc /\ gate_sound (svcs s) src dst oc = true /\
+             (proof_ok s0 src = true -> oc = gate (fun i => sget i (svcs s)) src dst).
 Proof.
-  intros Hf Hd s0 s. exists (ibtp_outcome s src dst). split.
-  - rewrite (step_at_step f _ s _ Hd). reflexivity.
-  - subst s s0. rewrite <- run_ops_app. apply gate_theorem. exact Hf.
+  intros Hf Hd s0 s.
+  assert (Hc : cache_ok s).
+  { subst s s0. rewrite <- run_ops_app. exact (proj1 (run_ops_keeps f _ st0 Hf (proj1 st0_ok) (proj2 st0_ok))). }
+  exists (if negb (proof_ok s0 src) then OProof else gate (view (cache s) (svcs s)) src dst). split; [|split].
+  - cbn [step_at r_out]. rewrite Hd. reflexivity.
+  - destruct (negb (proof_ok s0 src)); [reflexivity|].
+    rewrite (gate_ext _ (fun i => sget i (svcs s)) src dst (view_ok s src Hc) (view_ok s dst Hc)).
+    apply gate_sound_gate.
+  - intro Hp. rewrite Hp. cbn [negb].
+    apply (gate_ext _ (fun i => sget i (svcs s)) src dst (view_ok s src Hc) (view_ok s dst Hc)).
 Qed.
 
 (** a cache that takes the records only at the end of the block lets a request through that follows, in the same
